@@ -175,6 +175,23 @@ PROPS = {
         "level_text": "Lean theorems C06_step / C06_history / C06_terminates: for every byte string, every prior contents of the reused decoder structs and every sequence of frames, the three processors never reach a panic, emit at most one record per frame, and emit it only if the frame itself contains the flat, offset-defined header chain of Spec/Frame.lean (version 4, IHL/lengths consistent, well-delimited options, unfragmented; ARP 1/0x0800/6/4) with every record field read from that frame. Tied to the code by histories of structurally generated and malformed frames through the real ScanMethod.ProcessPacketData.",
         "level_note": "Trusted: Lean kernel; the gopacket decoder model is validated differentially (1.5k histories quick / 25k thorough), not proved.",
     },
+    "C05": {
+        "modules": ["SxVerif.Props.C05"],
+        "components": ["fill"],
+        "trusted_base": [
+            "modelled, not verified: gopacket layers.{Ethernet,IPv4,TCP,UDP,ICMPv4,ARP}.SerializeTo, gopacket.Payload, SerializeLayers order, checksum / tcpipChecksum / pseudoheaderChecksum, Ethernet padding to 60 bytes, net.IP.To4 (Model/Fill.lean); validated byte for byte against the real fillers on every run, not proved",
+            "math/rand draws are parameters of the model; their ranges are regenerated from the four Fill bodies by sxfacts (Generated/Fill.lean, theorem C05_draws); rand.Intn(n) returns a value in [0, n)",
+            "TCP flag table (CLI name -> filler option -> PacketFiller field -> layers.TCP field) regenerated by sxfacts (Generated/Flags.lean); the bit each layers.TCP field sets is modelled (tcpFieldBit)",
+        ],
+        "assumptions": [
+            "request well-formedness (Spec.ReqOK / ArpReqOK): 4-byte or IPv4-mapped source and destination address (C02 for targets, C17 for the source), 16-bit port, and 6-byte MACs unless VPN mode; requests outside it are refused with an error (C05_refused_*), except that ARP copies a source address of any length as it is (C17 guarantees 4 bytes)",
+            "payload <= 65507 bytes (IPv4 maximum): beyond it gopacket truncates the IP total length and the UDP length mod 2^16 without an error; such a frame exceeds every link MTU and is refused by the packet socket",
+            "--ttl/--ipproto/--type/--code are uint8 flags and --iplen a uint16 flag (pflag Uint8Var/Uint16Var), --ipflags < 8 by C05_cli_ipflags over C18_ipflags_exact",
+            "a UDP checksum that computes to 0 is transmitted as 0 (gopacket does not substitute 0xffff as RFC 768 asks); the RFC 1071 sum still verifies, a receiver reads 0 as 'no checksum'",
+        ],
+        "level_text": "Lean theorems C05_tcp / C05_udp / C05_icmp / C05_arp: for every well-formed request, all 2^9 TCP flag sets, every TTL / IP flags / protocol / type / code, every payload byte string up to the IPv4 maximum (induction-free RFC 1071 argument over the byte list, odd lengths included), every value of the random draws and both link modes, the frame read back by an independent RFC 791/793/768/792/826 offset reader carries exactly the requested MACs, addresses, port, flags, TTL, IP flags, type/code and payload; IPv4 header checksum and TCP/UDP (pseudo-header) / ICMP checksums verify; total length, IHL, data offset, UDP length, Ethernet padding are consistent, and --iplen / --ipproto appear verbatim with every other field unchanged (UDP length included, D14 fixed); IP id in 1..65535, source port in 32768..60999 with the draw ranges regenerated from the source (C05_draws). C05_vpn_same_datagram*: the VPN frame is the Ethernet frame minus header and padding. C05_refused_*: non-IPv4 addresses / bad MACs give an error, never a frame. CLI side: C05_cli_tcp_flags / C05_tcp_cli (the flag set the command's filler gets from the accepted --flags names, through the regenerated option table, is the set the names denote and is what the header carries), C05_subcommand_flags (tcp syn/fin/null/xmas give SYN / FIN / none / FIN+PSH+URG, over the option lists regenerated from command/tcp_*.go), C05_cli_ipflags (parsed --ipflags fit the field) composed with C18's parser theorems. Tied to the code by running the real Fill of all four fillers (built through the commands' own option wiring) into a dirty buffer and comparing every byte with the model, exhaustively over 2^9 flag sets x 2 link modes, a corner grid of payload lengths x option extremes, the IPv4 maximum payload, and a search of millions of frames of one seeded random stream for ids/ports at or beyond the ends of their ranges; the parse component drives flag names through the real filler (ptcpflags).",
+        "level_note": "Trusted: Lean kernel; the gopacket serializer model is validated differentially on every run (byte-exact), not proved; sxfacts for the draw ranges and the flag table.",
+    },
     "C18": {
         "modules": ["SxVerif.Props.C18"],
         "components": ["parse"],
